@@ -202,6 +202,62 @@ def shared_subroutine_driver(rep):
                     "order": order, "version": version, "features": {"why": "shared-sub B accepted", "status": str(last)}})
 
 
+def probed_subroutine_driver(rep):
+    """histories in which a subroutine is QUERIED on the side (type_of / has_return evaluate its body and rewind the
+    slot-id counter) before the main routine's variables are created, while a variable made inside that body
+    survives (a memoised temporary): the later variables then carry slot ids that object already has.  They are
+    different variables all the same: the one the main routine loads before any store must be reported, in every
+    position among its siblings; with every variable stored first the program must compile."""
+    for version in (6, 8, 10):
+        for probe in ("none", "type_of", "has_return", "both", "twice"):
+            for m in (1, 2, 3, 4):
+                for bad in list(range(m)) + [None]:
+                    temps = {}
+
+                    def temp():
+                        if "t" not in temps:
+                            temps["t"] = pt.ScratchVar(pt.TealType.uint64)
+                        return temps["t"]
+
+                    @pt.Subroutine(pt.TealType.uint64)
+                    def bump(x):
+                        t = temp()
+                        return pt.Seq(t.store(x + pt.Int(1)), t.load())
+                    if probe in ("type_of", "both", "twice"):
+                        bump.type_of()
+                    if probe in ("has_return", "both"):
+                        bump.has_return()
+                    if probe == "twice":
+                        bump.type_of()
+                    use = pt.Pop(bump(pt.Int(1)))
+                    vs = [pt.ScratchVar(pt.TealType.uint64) for _ in range(m)]
+                    body = []
+                    for j, v in enumerate(vs):
+                        if j == bad:
+                            body += [pt.Pop(v.load()), use, v.store(pt.Int(2))]
+                        else:
+                            body += [v.store(pt.Int(j)), pt.Pop(v.load())]
+                    if bad is None:
+                        body.append(use)
+                    try:
+                        pt.compileTeal(pt.Seq(*body, pt.Int(1)), pt.Mode.Application, version=version)
+                        st = "ok"
+                    except drive.PT_ERRORS:
+                        st = "pterr"
+                    except Exception as e:
+                        st = "crash: %r" % (e,)
+                    rep.add("traces_validated")
+                    rep.outcomes["probed-sub:" + st[:5]] = rep.outcomes.get("probed-sub:" + st[:5], 0) + 1
+                    want = "ok" if bad is None else "pterr"
+                    if st != want:
+                        rep.violations.append({
+                            "driver": "probed-sub", "size": m,
+                            "title": "v%d, subroutine queried (%s) before %d variables were made, variable %s loaded before "
+                                     "its first store: compiling gave %s, expected %s" % (version, probe, m, bad, st, want),
+                            "probed": [version, probe, m, bad],
+                            "features": {"why": "probed-sub " + ("accepted" if st == "ok" else st[:12]), "status": st[:20]}})
+
+
 def run(tier):
     global _CFGS
     rep = common.Report(PID, tier)
@@ -243,6 +299,7 @@ def run(tier):
     for sh in common.pmap_shards(_worker, items, order_seed=rep.seed):
         rep.merge(sh)
     shared_subroutine_driver(rep)
+    probed_subroutine_driver(rep)
     rep.counters["distinct_nontrivial"] = rep.counters.get("states", 0)
     rep.assumptions = ["paths are syntactic: both outcomes of every condition, zero or more loop iterations",
                        "code after Return/Break/Continue in the same sequence is unreachable"]
@@ -256,6 +313,13 @@ def replay(case):
         rep = common.Report(PID, "quick")
         shared_subroutine_driver(rep)
         hits = [v for v in rep.violations if v["order"] == case["order"] and v["version"] == case["version"]]
+        for v in hits:
+            print("still violates:", v["title"])
+        return bool(hits)
+    if case.get("driver") == "probed-sub":
+        rep = common.Report(PID, "quick")
+        probed_subroutine_driver(rep)
+        hits = [v for v in rep.violations if v["probed"] == case["probed"]]
         for v in hits:
             print("still violates:", v["title"])
         return bool(hits)
